@@ -137,7 +137,7 @@ def trace_term(sc, tr):
     chrom = tr["chromosome"]
     pos = tr["accessible_positions"]
     col = {p: i for i, p in enumerate(pos)}
-    truth = synth.truth_alleles(sc, sample, chrom)
+    truth = {p1 - 1: v for p1, v in synth.truth_alleles(sc, sample, chrom).items()}   # trace positions are 0-based
     reads, origin = [], []
     for r in tr["reads"]:
         ents = [Raw(f"({col[p]}, {b(a == 1)}, {q})") for p, a, q in r["variants"] if p in col]
